@@ -195,6 +195,34 @@ func classifyDeath(caseIdx int, name string, stderr string, timedOut bool) resul
 	if len(norm) > 120 {
 		norm = norm[:120]
 	}
+	if frame == "" && strings.HasPrefix(msg, "panic:") {
+		// the grpc server panicked while encoding a response: every grpc server in the worker is a kubebrain server (the
+		// harness only runs grpc clients), so the message it could not encode is what a kubebrain handler returned
+		seen, inStack := false, false
+		for _, l := range lines {
+			if l == msg {
+				seen = true
+				continue
+			}
+			if !seen {
+				continue
+			}
+			if strings.HasPrefix(l, "goroutine ") {
+				if inStack {
+					break
+				}
+				inStack = true
+				continue
+			}
+			if inStack && strings.Contains(l, "/verif/") {
+				break
+			}
+			if inStack && (strings.HasPrefix(l, "google.golang.org/grpc.(*Server).sendResponse(") || strings.HasPrefix(l, "google.golang.org/grpc.(*serverStream).SendMsg(")) {
+				frame = "grpc server encoding the handler's response"
+				break
+			}
+		}
+	}
 	if frame == "" {
 		// a crash with no kubebrain frame is the harness's own bug, not a verdict
 		r.Verdict = "inconclusive"
